@@ -13,7 +13,10 @@ RULE = ('(a) twin worlds: seeded random World histories in which a share of the 
         'Controller (module-level shorthands, Controller methods, ComponentReference / ProcessorReference get, '
         'set, del); the same history is replayed with every shorthand replaced by the World call for the '
         'controller\'s recorded entity and ALL observables (results, callbacks, full snapshots after every '
-        'operation) must be identical; the shorthand run is also compared with the Lean world model.  '
+        'operation) must be identical; the shorthand run is also compared with the Lean world model; one '
+        'history in three is frame-heavy (OnUpdateProcessor subclasses, on_update listeners some of which '
+        'raise on a scripted call while the caller keeps calling process()) and every process() is held to '
+        '"dt relayed exactly once to every on_update listener".  '
         '(b) prototypes: seeded families of Prototype subclasses over every combination of the three '
         'construction sources per listed type, custom/empty prefixes, inherited and overridden attributes, '
         'colliding type names, double iteration (freshness).  Non-trivial: a shorthand changed the world / a '
@@ -66,9 +69,17 @@ def generate(rng, tier):
     n = 250 if tier == 'quick' else 5000
     made = 0
     while made < n:
-        lines = gen_world.gen_scenario(rng, ops_range=(2, 14), n_comp=(2, 5), n_proc=(0, 3), handlers=0.5,
-                                       ctrl=0.7, clear_disabled=False,
-                                       w=dict(enable=0.6, clear=0.2, dispatch=0.6, process=1.5))
+        if made % 3 == 2:
+            # frames: OnUpdateProcessor subclasses, on_update listeners (some raise on a scripted call and
+            # the caller goes on calling process()), dispatch toggles
+            lines = gen_world.gen_scenario(rng, ops_range=(4, 16), n_comp=(2, 5), n_proc=(1, 3), handlers=0.85,
+                                           ctrl=0.5, upd=0.8, raises=0.8, raise_plain=True, clear_disabled=False,
+                                           w=dict(enable=0.8, clear=0.1, dispatch=0.3, process=6, addproc=4,
+                                                  rmproc=0.5, create=5, add=4, remove=1, delete=1))
+        else:
+            lines = gen_world.gen_scenario(rng, ops_range=(2, 14), n_comp=(2, 5), n_proc=(0, 3), handlers=0.5,
+                                           ctrl=0.7, clear_disabled=False,
+                                           w=dict(enable=0.6, clear=0.2, dispatch=0.6, process=1.5))
         lines = with_via(rng, lines)
         if lines:
             made += 1
@@ -76,7 +87,7 @@ def generate(rng, tier):
 
 
 def project(obs):
-    return [o for o in obs if o.split()[0] in TAGS]
+    return [o for o in _world.norm_ret(obs) if o.split()[0] in TAGS]
 
 
 def oracle(lines, obs):
@@ -87,6 +98,14 @@ def oracle(lines, obs):
         twin = ['hang']
     a, b = project(obs), project(twin)
     if a == b:
+        # the frame clause: each process() makes every OnUpdateProcessor relay dt exactly once to every
+        # on_update listener (statement of the world properties, harness/spec_world.py)
+        from harness import spec_world
+        for v in spec_world.check(lines, obs):
+            clause = v['sig'].split(':')[0]
+            if clause in ('missing-callback', 'unexpected-callback', 'wrong-callback', 'process-calls') \
+                    and v['what'].startswith('`process') and len(v['sig'].split(':')) == 1:
+                return [{'sig': 'C19:on_update-relay', 'what': v['what']}]
         return []
     k = next((i for i, (x, y) in enumerate(zip(a, b)) if x != y), min(len(a), len(b)))
     got = a[k] if k < len(a) else '<end>'
